@@ -816,7 +816,9 @@ func ruleRevalidate(c *RC) *RuleResult {
 			if f := d.ProveAt(cs, g); f == nil {
 				r.ok(fmt.Sprintf("%s -> %s: header/pre-block obtainable at the call", cs.Fn.Name, fn.Name))
 			} else {
-				r.fail(cs.Fn.Name+"->"+fn.Name, c.Prog.Pos(cs.Node), "the re-validation call cannot verify anything in this state (no header/pre-block can be built): "+f.String())
+				// the construct names roles, not the helper the call happens to sit in: the function the caller serves
+				// (a message handler is named by its kind) and the table the routine re-validates
+				r.fail(c.roleName(cs.Fn)+"->revalidate:"+table, c.Prog.Pos(cs.Node), cs.Fn.Name+" -> "+fn.Name+": "+ "the re-validation call cannot verify anything in this state (no header/pre-block can be built): "+f.String())
 			}
 		}
 	}
@@ -824,6 +826,28 @@ func ruleRevalidate(c *RC) *RuleResult {
 		r.unresolved("call sites of re-validation routines")
 	}
 	return r
+}
+
+// roleName names the function fn serves: fn itself, or — for a single-caller private helper — the function up the
+// chain of single callers; a message handler is named by the kind it handles.
+func (c *RC) roleName(fn *FuncInfo) string {
+	hs := c.handlers()
+	for hop := 0; hop < 6; hop++ {
+		for kind, h := range hs {
+			if h == fn {
+				return "handler:" + kind
+			}
+		}
+		if !c.A.inlinable(fn) {
+			break
+		}
+		cs := c.A.callers[fn]
+		if len(cs) != 1 || cs[0].Fn == fn {
+			break
+		}
+		fn = cs[0].Fn
+	}
+	return fn.Name
 }
 
 // G-VERIFY-ON-STORE: after a received current-view (pre)commit is stored, the acceptance test is reached only after
